@@ -2,7 +2,7 @@
    the "if" directions of the properties — a declared next status returned with a nil error IS persisted (C16), a
    deletion request IS served, also when it is delivered again (C15). *)
 From WF Require Import model.Base model.RunState model.Routing model.Graph model.Counter model.Shard model.EngineBase
-  model.Engine proofs.Hoare proofs.RelayFacts.
+  model.Engine proofs.Hoare proofs.EngineInv proofs.RelayFacts proofs.Delivery.
 
 Section FF.
 Variable c : econfig.
@@ -144,6 +144,40 @@ Proof.
   f_equal. f_equal. cbn [set_obj r_wf r_fid r_run r_obj r_created r_ver r_reason].
   rewrite Hpo. rewrite <- Ho.
   unfold promote. destruct (r_state r); cbn; rewrite ?Ho; reflexivity.
+Qed.
+
+(* hook.go runHook inside consume, fault-free: an event of the hook's own state (not filtered) whose hook no longer fails is
+   handled — the hook is invoked on the looked-up run and returns nil (or the run's data was deleted: nothing to call) — and
+   acknowledged: the committed position of the hook consumer moves past it *)
+Theorem hook_iteration_ff inst st idx e r s :
+  let k := match find_first (fun h => rs_eqb (fst h) st) (ec_hooks c) with Some h => snd h | None => O end in
+  ff s -> unit_filter (EHook st) e = false -> lookup_run (o_w s) (e_run e) = Some r ->
+  (hook_fails k <= att_get (w_att (o_w s)) (ufun_code (UFHook st)) (r_run r))%nat ->
+  exists s', after_lag c inst (EHook st) idx e s = (Ok PRun, s') /\ ff s' /\
+             get_cursor (o_w s') (EHook st) = S idx /\ w_recs (o_w s') = w_recs (o_w s) /\
+             (r_obj r <> ODeleted ->
+              exists t, o_trace s' = TAck e ROk :: TUser (UFHook st) r (Some r) (w_now (o_w s)) UOk :: t).
+Proof.
+  intros k H Hf Hl Hk. unfold after_lag. rewrite Hf. cbn [unit_handler]. fold k.
+  unfold bind at 1. unfold bind at 1. unfold hook_handler. unfold bind at 1.
+  destruct (p_lookup_ff (e_run e) s H) as (s1 & F1 & W1 & R1 & T1). rewrite R1, Hl.
+  destruct (r_obj r) eqn:Ho.
+  - unfold bind at 1. unfold att_bump. cbn [fst snd]. unfold bind at 1, get_w. cbn [fst snd o_w].
+    rewrite W1.
+    assert (Hn : Nat.ltb (att_get (w_att (o_w s)) (ufun_code (UFHook st)) (r_run r)) (hook_fails k) = false) by (apply Nat.ltb_ge; exact Hk).
+    rewrite Hn. unfold bind at 1. destruct F1 as (P1 & L1 & D1). unfold emit. cbn [o_dead]. rewrite D1. cbn [fst snd ret].
+    match goal with |- context [p_ack ?u ?i ?ev ?st0] => destruct (p_ack_ff u i ev st0) as (s3 & F3 & W3 & R3 & T3); [repeat split; assumption|] end.
+    rewrite R3. exists s3. split; [reflexivity|]. split; [exact F3|]. rewrite W3. cbn [o_w].
+    split; [apply get_put_cursor_same|].
+    split; [reflexivity|]. intros _. eexists. rewrite T3. cbn [o_trace]. rewrite T1.
+    assert (Hlr : lookup_run (set_att (o_w s) ((ufun_code (UFHook st), r_run r, S (att_get (w_att (o_w s)) (ufun_code (UFHook st)) (r_run r))) :: w_att (o_w s))) (r_run r) = Some r).
+    { unfold lookup_run. cbn. unfold lookup_run in Hl.
+      pose proof Hl as Hl'. apply find_first_some in Hl'. destruct Hl' as (_ & Hrr). apply N.eqb_eq in Hrr. rewrite Hrr. exact Hl. }
+    rewrite Hlr. reflexivity.
+  - cbn [ret fst snd].
+    destruct (p_ack_ff (EHook st) idx e s1 F1) as (s3 & F3 & W3 & R3 & T3). rewrite R3.
+    exists s3. split; [reflexivity|]. split; [exact F3|]. rewrite W3, W1.
+    split; [apply get_put_cursor_same|]. split; [reflexivity|]. intros Hc. congruence.
 Qed.
 
 End FF.
